@@ -13,7 +13,10 @@ import (
 // QuoteCase is a list of byte strings (hex-free JSON: Go strings may hold any
 // bytes; they are stored as arrays of byte values to survive JSON).
 type QuoteCase struct {
-	SS [][]int `json:"ss"`
+	// Pad > 0 prepends Pad filler bytes to the FIRST string, so that the joined
+	// text crosses internal buffer boundaries (bufio window, buffer growth).
+	Pad int     `json:"pad,omitempty"`
+	SS  [][]int `json:"ss"`
 }
 
 func toInts(s string) []int {
@@ -34,6 +37,9 @@ func (c QuoteCase) strings() []string {
 	out := make([]string, len(c.SS))
 	for i, v := range c.SS {
 		out[i] = fromInts(v)
+	}
+	if c.Pad > 0 && len(out) > 0 {
+		out[0] = strings.ReplaceAll(padding(c.Pad), " ", "b") + out[0]
 	}
 	return out
 }
@@ -110,6 +116,7 @@ func runQuote(c QuoteCase, o *vk.Obs) string {
 	}
 	o.ClassIf(len(ss) == 0, "empty_list")
 	o.ClassIf(len(ss) >= 2, "list>=2")
+	o.ClassIf(c.Pad > 0, "long_string(crosses 4096)")
 	for _, s := range ss {
 		if s == "" {
 			o.Class("has_empty_string")
@@ -154,6 +161,9 @@ func runShellCase(c ShellCase, o *vk.Obs) string {
 
 // SplitCase is one input for Split / Scanner, with a fragmentation plan.
 type SplitCase struct {
+	// Pad > 0 prepends Pad filler bytes ('a' with a blank every 61 bytes) so
+	// that In lands on an internal buffer boundary (bufio's 4096-byte window).
+	Pad  int   `json:"pad,omitempty"`
 	In   []int `json:"in"`
 	Frag []int `json:"frag,omitempty"` // fragment lengths for the chunked reader (cyclic); empty = one byte at a time
 }
@@ -248,6 +258,9 @@ func checkScanner(in string, ref refResult, frag []int, eofWith bool, reuse *she
 	}
 	// Rest after j tokens
 	for j := 0; j <= len(ref.Fields)+1; j++ {
+		if len(ref.Fields) > 24 && j > 2 && j < len(ref.Fields)-8 {
+			continue // long padded inputs: the first tokens and the last ones (around the boundary)
+		}
 		sc = shell.NewScanner(mk())
 		ok := true
 		for t := 0; t < j; t++ {
@@ -303,8 +316,19 @@ func ntSplit(ref refResult) bool { return len(ref.Modes) >= 3 && ref.OddEnd }
 
 var fragPlans = [][]int{nil, {2, 0, 1}, {3}, {1, 5, 0, 2}, {4096}}
 
+func padding(n int) string {
+	b := make([]byte, n)
+	for i := range b {
+		b[i] = 'a'
+		if i%61 == 60 {
+			b[i] = ' '
+		}
+	}
+	return string(b)
+}
+
 func runSplit(c SplitCase, o *vk.Obs) string {
-	in := fromInts(c.In)
+	in := padding(c.Pad) + fromInts(c.In)
 	ref, m := checkSplit(in)
 	if m != "" {
 		return m
@@ -324,6 +348,7 @@ func runSplit(c SplitCase, o *vk.Obs) string {
 		o.NonTrivial()
 	}
 	o.ClassIf(!ref.Complete, "incomplete")
+	o.ClassIf(c.Pad > 0, "input_crosses_4096_boundary")
 	o.ClassIf(ref.Modes["dq-escape"], "escape_in_double_quotes")
 	o.ClassIf(ref.UnquotedNewline, "unquoted_newline")
 	return ""
